@@ -570,6 +570,32 @@ func (c *cenv) resolveTypeText(text string) types.Type {
 func (c *cenv) call(n *ast.CallExpr) Val {
 	e := c.e
 	boolT := types.Typ[types.Bool]
+	// type conversions: []byte(x), string(x), uint64(x), pkg.Type(x)
+	if len(n.Args) == 1 {
+		isConv := false
+		switch f := n.Fun.(type) {
+		case *ast.ArrayType, *ast.StarExpr:
+			isConv = true
+		case *ast.Ident:
+			if _, isVar := c.lookupVar(f.Name); !isVar {
+				if o := types.Universe.Lookup(f.Name); o != nil {
+					_, isConv = o.(*types.TypeName)
+				}
+			}
+		case *ast.ParenExpr:
+			isConv = true
+		}
+		if isConv {
+			if t := c.resolveType(unparen(n.Fun)); t != nil {
+				v := c.eval(n.Args[0])
+				v = c.coerce(v, t)
+				if v.Typ == nil {
+					return c.errf("conversion of untyped spec value")
+				}
+				return e.convert(c.st(), v, t, token.NoPos)
+			}
+		}
+	}
 	if id, ok := n.Fun.(*ast.Ident); ok {
 		switch id.Name {
 		case "old":
@@ -579,6 +605,7 @@ func (c *cenv) call(n *ast.CallExpr) Val {
 			save := c.inOld
 			c.inOld = true
 			v := c.eval(n.Args[0])
+			v = c.freeze(v)
 			c.inOld = save
 			return v
 		case "implies":
@@ -712,6 +739,30 @@ func (c *cenv) call(n *ast.CallExpr) Val {
 	return c.errf("unsupported call %s", exprString(n))
 }
 
+// freeze pins state-dependent Go-side values (store handles) to the state they were evaluated in.
+func (c *cenv) freeze(v Val) Val {
+	switch v.K {
+	case kStore:
+		v.Frozen = c.e.term(c.st(), v)
+	case kIface:
+		if v.Inner != nil {
+			in := c.freeze(*v.Inner)
+			v.Inner = &in
+		}
+	}
+	return v
+}
+
+func unparen(x ast.Expr) ast.Expr {
+	for {
+		p, ok := x.(*ast.ParenExpr)
+		if !ok {
+			return x
+		}
+		x = p.X
+	}
+}
+
 func isComp(e *Env, name string) bool {
 	for _, c := range e.allComps() {
 		if c == name {
@@ -790,6 +841,12 @@ func (c *cenv) specApp(sf *SpecFunc, n *ast.CallExpr) Val {
 		}
 		v := c.coerce(c.eval(a), pt)
 		v = c.derefTo(v, pt)
+		if _, wantI := pt.Underlying().(*types.Interface); wantI && v.K != kIface && v.Typ != nil {
+			if _, isI := v.Typ.Underlying().(*types.Interface); !isI || v.K == kStore {
+				inner := v
+				v = Val{K: kIface, Typ: pt, Inner: &inner, Sort: sIface}
+			}
+		}
 		sorts = append(sorts, e.sortOfT(pt))
 		args = append(args, e.term(c.st(), v))
 	}
